@@ -1,0 +1,55 @@
+//! C12 hooks (round 3): event recorder for `DirectLDLKKTSolver::iterative_refinement`, a
+//! directly driven setrhs / solve on the C11 `Driven` object, the AMD statistics used by the
+//! automatic backend selection, and the settings validation verdict.
+#![allow(non_snake_case)]
+#![allow(dead_code)]
+use crate::algebra::*;
+use crate::solver::core::kktsolvers::KKTSolver;
+use std::cell::RefCell;
+
+thread_local! {
+    static IR: RefCell<Option<Vec<(u8, f64, f64)>>> = const { RefCell::new(None) };
+}
+/// kinds: 0 start (normb, norme0); 1 pass (lastnorme, norme); 2 swap inside "insufficient
+/// improvement"; 3 insufficient improvement (break); 4 accepted (swap, continue)
+pub fn ir_event(kind: u8, a: f64, b: f64) {
+    IR.with(|r| {
+        if let Some(v) = r.borrow_mut().as_mut() {
+            v.push((kind, a, b));
+        }
+    });
+}
+pub fn ir_start() {
+    IR.with(|r| *r.borrow_mut() = Some(vec![]));
+}
+pub fn ir_take() -> Vec<(u8, f64, f64)> {
+    IR.with(|r| r.borrow_mut().take().unwrap_or_default())
+}
+
+/// KKTSolver::setrhs + KKTSolver::solve on a driven solver; returns (is_success, x, events)
+pub fn driven_solve(
+    d: &mut super::c11::Driven,
+    rhsx: &[f64],
+    rhsz: &[f64],
+) -> (bool, Vec<f64>, Vec<f64>, Vec<(u8, f64, f64)>) {
+    d.kkt.setrhs(rhsx, rhsz);
+    let b = d.kkt.verif_b().to_vec();
+    ir_start();
+    let ok = d.kkt.solve(None, None, &d.settings);
+    let ev = ir_take();
+    (ok, d.kkt.verif_x().to_vec(), b, ev)
+}
+pub fn driven_backend(d: &super::c11::Driven) -> String {
+    d.kkt.verif_backend_name()
+}
+/// (n_div, n_mult_subs_ldl, lnz) of the AMD ordering the automatic selection looks at
+pub fn amd_stats(K: &CscMatrix<f64>) -> (usize, usize, usize) {
+    let (_p, _ip, info) = crate::qdldl::get_amd_ordering(K, 1.5);
+    (info.n_div, info.n_mult_subs_ldl, info.lnz)
+}
+/// DefaultSettings::validate on a settings object whose method string is `s`
+pub fn validate_method(s: &str) -> bool {
+    let mut set = crate::solver::implementations::default::DefaultSettings::<f64>::default();
+    set.direct_solve_method = s.to_string();
+    set.validate().is_ok()
+}
